@@ -83,3 +83,7 @@ reg("C11", "exploration",
     "clang-assembled AArch64 objects with multi-MiB functions so the image spans 200-520 MiB, calls forward/backward/to both ends/to 64 KiB-aligned callees, conditional branches, and PLT calls in PIE links; every generated branch site (marker symbol, known target) is decoded in wild's output and followed through at most one thunk or PLT stub (ADRP+ADD+BR, ADRP+LDR+BR decoded); it must arrive at the target symbol's address or at a GOT slot bound to the target; a range failure that ld.lld does not have is a violation.",
     "No AArch64 execution is possible in this sandbox: control flow is decoded statically; ld.lld 14 is the accept/reject reference.",
     "runtime output monitor: static control-flow decoding of generated long-branch programs")
+reg("C14", "exploration",
+    "The CPU is the oracle: generated assembly executes each relaxable form (mov/add/sub/and/or/xor/cmp/test/adc/sbb sym@GOTPCREL(%rip),%reg for 14 registers in 64- and 32-bit operand sizes, call/jmp/push through GOTPCREL, TLS GD/LD/IE/IE-add/TLSDESC) on symbols of every class (local, hidden, global, preemptible in shared outputs, undefined weak, absolute at boundary values) and compares the destination register and CF/PF/ZF/SF/OF with the same operation on an unrelaxable witness slot, in static, static-PIE, PIE and shared outputs, with and without --no-relax; a case counts only when GNU ld's link of the same objects passes the self-check.",
+    "APX (REX2/EVEX) forms cannot be assembled or executed here and are not covered; absolute symbols are only used in static links because GNU ld is not a consistent arbiter for them in PIE.",
+    "runtime self-checking execution: relaxed instruction vs unrelaxable witness on the real CPU")
